@@ -77,14 +77,14 @@ another property is recorded as missed.
 
 Round 6 ran in two halves, with the instructions of round 5 (list of all earlier mutations of the property "to
 avoid", defects of the unmodified code asked for): first C07, C09, C11, C12, C16, C20 - the properties that had received
-most of the late rules - then the other twelve claimed properties. The first sweep caught 9 of the 36: by round 6 the
+most of the late rules - then the other twelve claimed properties. The first sweep caught 8 of the 36: by round 6 the
 agents were past everything the existing rules had been written for, and delivered two-site slips (an argument order, a
 carry test copied from the loop above, a value taken before the lock, a store moved behind a callback, a unit slip
 between GC periods and heights). Each miss was answered by a rule or a clause that states the convention the mutation
 broke, not the mutated line (section 3, "Rules written in round 6"); two agents delivered a mutation that another
 property's agent had delivered before (the double-entrance lock of `persist`, the raw read in the trie), kept because
 they measure the registration of an existing rule for a sibling property. One seed (C06-r6m1) had to be rebased after a
-later fix touched the same loop; its demonstration was re-run. Defect reports of round 6 are findings 73-83.
+later fix touched the same loop; its demonstration was re-run. Defect reports of round 6 are findings 73-84.
 
 {t6}
 
